@@ -100,6 +100,17 @@ def applyFrom (T : Table α) (avail : List α) (ids : List α) : Nat → List α
 def applyOrder (T : Table α) (avail : List α) (ids : List α) : Except Err Unit :=
   applyFrom T avail ids 0 ids
 
+/-- the list `preproc.apply` works on: the deprecated keyword `preproc_names`, when given, replaces
+`identifiers` - before anything is validated -/
+def resolveIds (identifiers preprocNames : Option (List α)) : List α :=
+  match preprocNames with
+  | some l => l
+  | none => identifiers.getD []
+
+/-- `preproc.apply(apret, identifiers, …, preproc_names)` – acceptance -/
+def applyArgs (T : Table α) (avail : List α) (identifiers preprocNames : Option (List α)) : Except Err Unit :=
+  applyOrder T avail (resolveIds identifiers preprocNames)
+
 /-- a selection contains the required steps of each of its members -/
 def closed (T : Table α) (ids : List α) : Bool :=
   ids.all (fun p => (T.req p).all (fun r => ids.contains r))
